@@ -29,54 +29,463 @@ def quadForm (c : Sym4 ℝ) (q0 q1 q2 q3 : ℝ) : ℝ :=
   c.a00 * q0 * q0 + c.a11 * q1 * q1 + c.a22 * q2 * q2 + c.a33 * q3 * q3 +
   2 * (c.a01 * q0 * q1 + c.a02 * q0 * q2 + c.a03 * q0 * q3 + c.a12 * q1 * q2 + c.a13 * q1 * q3 + c.a23 * q2 * q3)
 
+@[simp] theorem ofNat_eq (n : Nat) : (GNum.ofNat n : ℝ) = (n : ℝ) := rfl
+@[simp] theorem dec_eq (m e : Nat) : (GNum.dec m e : ℝ) = (m : ℝ) / 10 ^ e := rfl
+@[simp] theorem sqrt_eq (x : ℝ) : (GNum.sqrt x : ℝ) = Real.sqrt x := rfl
+@[simp] theorem sin_eq (x : ℝ) : (GNum.sin x : ℝ) = Real.sin x := rfl
+@[simp] theorem cos_eq (x : ℝ) : (GNum.cos x : ℝ) = Real.cos x := rfl
+@[simp] theorem pi_eq : (GNum.pi : ℝ) = Real.pi := rfl
+
+theorem V3.ext' {a b : V3 ℝ} (hx : a.x = b.x) (hy : a.y = b.y) (hz : a.z = b.z) : a = b := by
+  cases a; cases b; simp_all
+
 theorem q2mat_isometry_core (q0 q1 q2 q3 : ℝ) (h : q0 ^ 2 + q1 ^ 2 + q2 ^ 2 + q3 ^ 2 = 1) (p p' : V3 ℝ) :
     V3.dot (rotPoint (q2mat q0 q1 q2 q3) p) (rotPoint (q2mat q0 q1 q2 q3) p') = V3.dot p p' := by
-  sorry
+  obtain ⟨x, y, z⟩ := p
+  obtain ⟨x', y', z'⟩ := p'
+  simp only [V3.dot, rotPoint, q2mat, ofNat_eq]
+  have h2 : (q0 ^ 2 + q1 ^ 2 + q2 ^ 2 + q3 ^ 2)^2 = 1 := by rw [h]; norm_num
+  linear_combination (x*x'+y*y'+z*z') * h2
 
 theorem q2mat_proper_core (q0 q1 q2 q3 : ℝ) (h : q0 ^ 2 + q1 ^ 2 + q2 ^ 2 + q3 ^ 2 = 1) (p p' : V3 ℝ) :
     rotPoint (q2mat q0 q1 q2 q3) (V3.cross p p') =
       V3.cross (rotPoint (q2mat q0 q1 q2 q3) p) (rotPoint (q2mat q0 q1 q2 q3) p') := by
-  sorry
+  obtain ⟨x, y, z⟩ := p
+  obtain ⟨x', y', z'⟩ := p'
+  apply V3.ext'
+  · simp only [V3.cross, rotPoint, q2mat, ofNat_eq]
+    linear_combination (-((q0 * q0 + q1 * q1 - q2 * q2 - q3 * q3) * (y * z' - z * y') + 2 * (q2 * q1 + q0 * q3) * (z * x' - x * z') + 2 * (q3 * q1 - q0 * q2) * (x * y' - y * x'))) * h
+  · simp only [V3.cross, rotPoint, q2mat, ofNat_eq]
+    linear_combination (-(2 * (q1 * q2 - q0 * q3) * (y * z' - z * y') + (q0 * q0 - q1 * q1 + q2 * q2 - q3 * q3) * (z * x' - x * z') + 2 * (q3 * q2 + q0 * q1) * (x * y' - y * x'))) * h
+  · simp only [V3.cross, rotPoint, q2mat, ofNat_eq]
+    linear_combination (-(2 * (q1 * q3 + q0 * q2) * (y * z' - z * y') + 2 * (q2 * q3 - q0 * q1) * (z * x' - x * z') + (q0 * q0 - q1 * q1 - q2 * q2 + q3 * q3) * (x * y' - y * x'))) * h
 
 theorem chi_isometry_core (l : V3 ℝ) (hl : V3.dot l l = 1) (angle : ℝ) (p p' : V3 ℝ) :
     V3.dot (rotPoint (chiMatrix l angle) p) (rotPoint (chiMatrix l angle) p') = V3.dot p p' := by
-  sorry
+  obtain ⟨x, y, z⟩ := p
+  obtain ⟨x', y', z'⟩ := p'
+  obtain ⟨a, b, d⟩ := l
+  simp only [V3.dot] at hl
+  simp only [V3.dot, rotPoint, chiMatrix, ofNat_eq, cos_eq, sin_eq]
+  generalize (GNum.pi * angle / GNum.dec 1800 1 : ℝ) = r
+  have hcs := Real.cos_sq_add_sin_sq r
+  set c := Real.cos r
+  set s := Real.sin r
+  linear_combination (s^2 * (x*x'+y*y'+z*z') + (1-c)^2 * (a*x+b*y+d*z) * (a*x'+b*y'+d*z')) * hl + ((x*x'+y*y'+z*z') - (a*x+b*y+d*z) * (a*x'+b*y'+d*z')) * hcs
 
 theorem chi_fixes_axis_core (l : V3 ℝ) (hl : V3.dot l l = 1) (angle t : ℝ) :
     rotPoint (chiMatrix l angle) (V3.smul t l) = V3.smul t l := by
-  sorry
+  obtain ⟨a, b, d⟩ := l
+  simp only [V3.dot] at hl
+  simp only [rotPoint, chiMatrix, V3.smul, ofNat_eq, cos_eq, sin_eq]
+  generalize (GNum.pi * angle / GNum.dec 1800 1 : ℝ) = r
+  set c := Real.cos r
+  set s := Real.sin r
+  apply V3.ext'
+  · show _ = t * a
+    linear_combination (t * (1 - c) * a) * hl
+  · show _ = t * b
+    linear_combination (t * (1 - c) * b) * hl
+  · show _ = t * d
+    linear_combination (t * (1 - c) * d) * hl
+
+theorem dot_self_nonneg (a : V3 ℝ) : 0 ≤ V3.dot a a := by
+  unfold V3.dot; nlinarith [mul_self_nonneg a.x, mul_self_nonneg a.y, mul_self_nonneg a.z]
+
+theorem norm_mul_self (a : V3 ℝ) : V3.norm a * V3.norm a = V3.dot a a :=
+  Real.mul_self_sqrt (dot_self_nonneg a)
+
+theorem norm_ne_zero (a : V3 ℝ) (ha : V3.dot a a ≠ 0) : V3.norm a ≠ 0 := by
+  intro h
+  have := norm_mul_self a
+  rw [h] at this
+  exact ha (by linarith)
 
 theorem normalize_unit_core (a : V3 ℝ) (ha : V3.dot a a ≠ 0) : V3.dot (V3.normalize a) (V3.normalize a) = 1 := by
-  sorry
+  have hn := norm_ne_zero a ha
+  have hs := norm_mul_self a
+  have h1 : V3.dot (V3.normalize a) (V3.normalize a) = V3.dot a a / (V3.norm a * V3.norm a) := by
+    simp only [V3.normalize]
+    generalize V3.norm a = n at hn
+    simp only [V3.dot]
+    field_simp
+  rw [h1, hs]; exact div_self ha
+
+
+/-! ### linearity -/
+
+theorem rotPoint_sub (m : M3 ℝ) (p q : V3 ℝ) :
+    rotPoint m (V3.sub p q) = V3.sub (rotPoint m p) (rotPoint m q) := by
+  apply V3.ext' <;> simp only [rotPoint, V3.sub] <;> ring
+
+theorem iso_sub (m : M3 ℝ) (hm : ∀ p p', V3.dot (rotPoint m p) (rotPoint m p') = V3.dot p p') (p q : V3 ℝ) :
+    V3.dot (V3.sub (rotPoint m p) (rotPoint m q)) (V3.sub (rotPoint m p) (rotPoint m q)) =
+      V3.dot (V3.sub p q) (V3.sub p q) := by
+  rw [← rotPoint_sub, hm]
 
 theorem qchichange_rigid_core (axis : V3 ℝ) (ha : V3.dot axis axis ≠ 0) (angle : ℝ) (p p' : V3 ℝ) (t : ℝ) :
     let R := rotPoint (chiMatrix (V3.normalize axis) angle)
     V3.dot (V3.sub (R p) (R p')) (V3.sub (R p) (R p')) = V3.dot (V3.sub p p') (V3.sub p p') ∧
     V3.dot (V3.sub (R p) (V3.smul t axis)) (V3.sub (R p) (V3.smul t axis)) =
       V3.dot (V3.sub p (V3.smul t axis)) (V3.sub p (V3.smul t axis)) := by
-  sorry
+  intro R
+  have hu := normalize_unit_core axis ha
+  have hiso := chi_isometry_core (V3.normalize axis) hu angle
+  have hn := norm_ne_zero axis ha
+  have hax : V3.smul t axis = V3.smul (t * V3.norm axis) (V3.normalize axis) := by
+    apply V3.ext' <;> simp only [V3.smul, V3.normalize] <;> field_simp
+  have hfix : R (V3.smul t axis) = V3.smul t axis := by
+    rw [hax]; exact chi_fixes_axis_core (V3.normalize axis) hu angle _
+  refine ⟨iso_sub _ hiso p p', ?_⟩
+  have := iso_sub _ hiso p (V3.smul t axis)
+  rw [show rotPoint (chiMatrix (V3.normalize axis) angle) (V3.smul t axis) = V3.smul t axis from hfix] at this
+  exact this
 
-theorem jacobi_unit_quaternion_core (c : Sym4 ℝ) (nrot : Nat) :
-    let s := jacobi c nrot
-    (s.v 0 3) ^ 2 + (s.v 1 3) ^ 2 + (s.v 2 3) ^ 2 + (s.v 3 3) ^ 2 = 1 := by
-  sorry
+/-! ### Horn -/
 
-theorem findCoordinates_rigid_core (refs defs : List (V3 ℝ)) (a b : V3 ℝ) :
-    V3.dot (V3.sub (findCoordinates refs defs a) (findCoordinates refs defs b))
-           (V3.sub (findCoordinates refs defs a) (findCoordinates refs defs b)) =
-    V3.dot (V3.sub a b) (V3.sub a b) := by
-  sorry
+abbrev S9 := (ℝ × ℝ × ℝ) × (ℝ × ℝ × ℝ) × (ℝ × ℝ × ℝ)
+
+def hstep (acc : S9) (dr : V3 ℝ × V3 ℝ) : S9 :=
+  let d := dr.1; let r := dr.2
+  ((acc.1.1 + d.x * r.x, acc.1.2.1 + d.x * r.y, acc.1.2.2 + d.x * r.z),
+   (acc.2.1.1 + d.y * r.x, acc.2.1.2.1 + d.y * r.y, acc.2.1.2.2 + d.y * r.z),
+   (acc.2.2.1 + d.z * r.x, acc.2.2.2.1 + d.z * r.y, acc.2.2.2.2 + d.z * r.z))
+
+def sym4of (s : S9) : Sym4 ℝ :=
+  let xxyx := s.1.1; let xxyy := s.1.2.1; let xxyz := s.1.2.2
+  let xyyx := s.2.1.1; let xyyy := s.2.1.2.1; let xyyz := s.2.1.2.2
+  let xzyx := s.2.2.1; let xzyy := s.2.2.2.1; let xzyz := s.2.2.2.2
+  { a00 := xxyx + xyyy + xzyz, a01 := xzyy - xyyz, a02 := xxyz - xzyx, a03 := xyyx - xxyy,
+    a11 := xxyx - xyyy - xzyz, a12 := xxyy + xyyx, a13 := xzyx + xxyz,
+    a22 := xyyy - xzyz - xxyx, a23 := xyyz + xzyy, a33 := xzyz - xxyx - xyyy }
+
+theorem cmat_eq (defs refs : List (V3 ℝ)) :
+    cmat defs refs = sym4of ((defs.zip refs).foldl hstep ((0, 0, 0), (0, 0, 0), (0, 0, 0))) := by
+  have hz : (GNum.dec 0 0 : ℝ) = 0 := by simp
+  unfold cmat
+  simp only [hz]
+  rfl
+
+theorem horn_step (acc : S9) (dr : V3 ℝ × V3 ℝ) (q0 q1 q2 q3 : ℝ) :
+    quadForm (sym4of (hstep acc dr)) q0 q1 q2 q3 =
+      quadForm (sym4of acc) q0 q1 q2 q3 + V3.dot (rotPoint (q2mat q0 q1 q2 q3) dr.1) dr.2 := by
+  obtain ⟨⟨a1, a2, a3⟩, ⟨a4, a5, a6⟩, ⟨a7, a8, a9⟩⟩ := acc
+  obtain ⟨⟨x, y, z⟩, ⟨x', y', z'⟩⟩ := dr
+  simp only [quadForm, sym4of, hstep, V3.dot, rotPoint, q2mat, ofNat_eq]
+  push_cast
+  ring
+
+theorem horn_fold (l : List (V3 ℝ × V3 ℝ)) (acc : S9) (q0 q1 q2 q3 : ℝ) :
+    quadForm (sym4of (l.foldl hstep acc)) q0 q1 q2 q3 =
+      quadForm (sym4of acc) q0 q1 q2 q3 +
+        (l.map (fun dr => V3.dot (rotPoint (q2mat q0 q1 q2 q3) dr.1) dr.2)).sum := by
+  induction l generalizing acc with
+  | nil => simp
+  | cons dr l ih =>
+    simp only [List.foldl_cons, List.map_cons, List.sum_cons]
+    rw [ih, horn_step]; ring
 
 theorem horn_identity_core (defs refs : List (V3 ℝ)) (q0 q1 q2 q3 : ℝ) :
     quadForm (cmat defs refs) q0 q1 q2 q3 =
       ((defs.zip refs).map (fun dr => V3.dot (rotPoint (q2mat q0 q1 q2 q3) dr.1) dr.2)).sum := by
-  sorry
+  rw [cmat_eq, horn_fold]
+  simp [quadForm, sym4of]
+
+theorem zip_map_map {β γ : Type} (l : List β) (f : β → β) (g : β × β → γ) :
+    (l.zip (l.map f)).map g = l.map (fun d => g (d, f d)) := by
+  induction l with
+  | nil => rfl
+  | cons a l ih => simp [ih]
+
+theorem sum_eq_of_le (l : List (V3 ℝ)) (f g : V3 ℝ → ℝ) (hle : ∀ d ∈ l, f d ≤ g d)
+    (hsum : (l.map g).sum ≤ (l.map f).sum) : ∀ d ∈ l, f d = g d := by
+  induction l with
+  | nil => intro d hd; cases hd
+  | cons a l ih =>
+    simp only [List.map_cons, List.sum_cons] at hsum
+    have ha : f a ≤ g a := hle a (by simp)
+    have hl : ∀ d ∈ l, f d ≤ g d := fun d hd => hle d (by simp [hd])
+    have hrest : (l.map f).sum ≤ (l.map g).sum := by
+      clear ih hsum hle ha
+      induction l with
+      | nil => simp
+      | cons b l ih2 =>
+        simp only [List.map_cons, List.sum_cons]
+        have := hl b (by simp)
+        have := ih2 (fun d hd => hl d (by simp [hd]))
+        linarith
+    intro d hd
+    rcases List.mem_cons.1 hd with rfl | hd
+    · linarith
+    · exact ih hl (by linarith) d hd
 
 theorem horn_exact_core (defs : List (V3 ℝ)) (g0 g1 g2 g3 q0 q1 q2 q3 : ℝ)
     (hg : g0 ^ 2 + g1 ^ 2 + g2 ^ 2 + g3 ^ 2 = 1) (hq : q0 ^ 2 + q1 ^ 2 + q2 ^ 2 + q3 ^ 2 = 1)
     (hmax : quadForm (cmat defs (defs.map (rotPoint (q2mat g0 g1 g2 g3)))) g0 g1 g2 g3 ≤
             quadForm (cmat defs (defs.map (rotPoint (q2mat g0 g1 g2 g3)))) q0 q1 q2 q3) :
     ∀ d ∈ defs, rotPoint (q2mat q0 q1 q2 q3) d = rotPoint (q2mat g0 g1 g2 g3) d := by
-  sorry
+  rw [horn_identity_core, horn_identity_core, zip_map_map, zip_map_map] at hmax
+  have hG := q2mat_isometry_core g0 g1 g2 g3 hg
+  have hQ := q2mat_isometry_core q0 q1 q2 q3 hq
+  have hle : ∀ d ∈ defs, V3.dot (rotPoint (q2mat q0 q1 q2 q3) d) (rotPoint (q2mat g0 g1 g2 g3) d) ≤
+      V3.dot (rotPoint (q2mat g0 g1 g2 g3) d) (rotPoint (q2mat g0 g1 g2 g3) d) := by
+    intro d _
+    have h1 := hG d d
+    have h2 := hQ d d
+    have h3 := dot_self_nonneg (V3.sub (rotPoint (q2mat q0 q1 q2 q3) d) (rotPoint (q2mat g0 g1 g2 g3) d))
+    simp only [V3.dot, V3.sub] at h1 h2 h3 ⊢
+    nlinarith
+  have heq := sum_eq_of_le defs _ _ hle hmax
+  intro d hd
+  have h0 := heq d hd
+  have h1 := hG d d
+  have h2 := hQ d d
+  generalize rotPoint (q2mat q0 q1 q2 q3) d = u at *
+  generalize rotPoint (q2mat g0 g1 g2 g3) d = w at *
+  obtain ⟨ux, uy, uz⟩ := u
+  obtain ⟨wx, wy, wz⟩ := w
+  simp only [V3.dot] at h0 h1 h2
+  have hsq : (ux - wx) ^ 2 + (uy - wy) ^ 2 + (uz - wz) ^ 2 = 0 := by nlinarith
+  have hx : ux - wx = 0 := by nlinarith [sq_nonneg (ux - wx), sq_nonneg (uy - wy), sq_nonneg (uz - wz)]
+  have hy : uy - wy = 0 := by nlinarith [sq_nonneg (ux - wx), sq_nonneg (uy - wy), sq_nonneg (uz - wz)]
+  have hz : uz - wz = 0 := by nlinarith [sq_nonneg (ux - wx), sq_nonneg (uy - wy), sq_nonneg (uz - wz)]
+  apply V3.ext' <;> simp only <;> linarith
+
+/-! ### Jacobi keeps `vmat` orthogonal -/
+
+/-- columns `0..3` of `v` (rows `0..3`) are orthonormal -/
+def OrthoV (v : Nat → Nat → ℝ) : Prop :=
+  ∀ a b, a < 4 → b < 4 →
+    v 0 a * v 0 b + v 1 a * v 1 b + v 2 a * v 2 b + v 3 a * v 3 b = if a = b then 1 else 0
+
+theorem foldl_v_eq {β : Type} (f : JState ℝ → β → JState ℝ) (hf : ∀ s k, (f s k).v = s.v)
+    (l : List β) (s : JState ℝ) : (l.foldl f s).v = s.v := by
+  induction l generalizing s with
+  | nil => rfl
+  | cons a l ih => rw [List.foldl_cons, ih, hf]
+
+theorem foldl_inv {β : Type} (P : JState ℝ → Prop) (f : JState ℝ → β → JState ℝ) (l : List β)
+    (hf : ∀ s k, k ∈ l → P s → P (f s k)) (s : JState ℝ) (hs : P s) : P (l.foldl f s) := by
+  induction l generalizing s with
+  | nil => exact hs
+  | cons a l ih =>
+    rw [List.foldl_cons]
+    exact ih (fun s k hk => hf s k (by simp [hk])) _ (hf s a (by simp) hs)
+
+/-- the Givens update of one row -/
+def Vupd (c sn : ℝ) (i j : Nat) (v : Nat → Nat → ℝ) (k : Nat) : Nat → Nat → ℝ :=
+  fun p q => if p = k ∧ q = i then c * v k i - sn * v k j
+    else if p = k ∧ q = j then sn * v k i + c * v k j else v p q
+
+theorem vfold_v (c sn : ℝ) (i j : Nat) (l : List Nat) (s : JState ℝ) :
+    (l.foldl (fun s k => setV (setV s k j (sn * s.v k i + c * s.v k j)) k i (c * s.v k i - sn * s.v k j)) s).v =
+      l.foldl (Vupd c sn i j) s.v := by
+  induction l generalizing s with
+  | nil => rfl
+  | cons a l ih => rw [List.foldl_cons, ih]; rfl
+
+theorem Vupd_rows (c sn : ℝ) (i j : Nat) (hij : i ≠ j) (v : Nat → Nat → ℝ) (p q : Nat) (hp : p < 4) :
+    (List.range 4).foldl (Vupd c sn i j) v p q =
+      if q = i then c * v p i - sn * v p j else if q = j then sn * v p i + c * v p j else v p q := by
+  have hji : j ≠ i := Ne.symm hij
+  have hr : List.range 4 = [0, 1, 2, 3] := by decide
+  rw [hr]
+  simp only [List.foldl_cons, List.foldl_nil]
+  have h4 : p = 0 ∨ p = 1 ∨ p = 2 ∨ p = 3 := by omega
+  rcases h4 with rfl | rfl | rfl | rfl <;> simp [Vupd, hij, hji]
+
+theorem OrthoV_rot (c sn : ℝ) (hcs : c ^ 2 + sn ^ 2 = 1) (i j : Nat) (hij : i ≠ j) (hi : i < 4) (hj : j < 4)
+    (v : Nat → Nat → ℝ) (hv : OrthoV v) : OrthoV ((List.range 4).foldl (Vupd c sn i j) v) := by
+  have hji : j ≠ i := Ne.symm hij
+  intro a b ha hb
+  rw [Vupd_rows c sn i j hij v 0 a (by norm_num), Vupd_rows c sn i j hij v 1 a (by norm_num),
+    Vupd_rows c sn i j hij v 2 a (by norm_num), Vupd_rows c sn i j hij v 3 a (by norm_num),
+    Vupd_rows c sn i j hij v 0 b (by norm_num), Vupd_rows c sn i j hij v 1 b (by norm_num),
+    Vupd_rows c sn i j hij v 2 b (by norm_num), Vupd_rows c sn i j hij v 3 b (by norm_num)]
+  have Hii := hv i i hi hi
+  have Hjj := hv j j hj hj
+  have Hij := hv i j hi hj
+  have Hia := hv i a hi ha
+  have Hja := hv j a hj ha
+  have Hib := hv i b hi hb
+  have Hjb := hv j b hj hb
+  have Hab := hv a b ha hb
+  simp only [if_true, if_neg hij] at Hii Hjj Hij
+  by_cases hai : a = i
+  · subst hai
+    by_cases hbi : b = a
+    · subst hbi
+      simp only [if_true]
+      linear_combination c ^ 2 * Hii + sn ^ 2 * Hjj - 2 * c * sn * Hij + hcs
+    · by_cases hbj : b = j
+      · subst hbj
+        simp only [if_true, if_neg hij, if_neg hji]
+        linear_combination c * sn * Hii - c * sn * Hjj + (c ^ 2 - sn ^ 2) * Hij
+      · have hab : a ≠ b := fun h => hbi h.symm
+        have hjb : j ≠ b := fun h => hbj h.symm
+        simp only [if_true, if_neg hbi, if_neg hbj, if_neg hab, if_neg hjb] at Hib Hjb ⊢
+        linear_combination c * Hib - sn * Hjb
+  · by_cases haj : a = j
+    · subst haj
+      by_cases hbi : b = i
+      · subst hbi
+        simp only [if_true, if_neg hij, if_neg hji]
+        linear_combination c * sn * Hii - c * sn * Hjj + (c ^ 2 - sn ^ 2) * Hij
+      · by_cases hbj : b = a
+        · subst hbj
+          simp only [if_true, if_neg hji]
+          linear_combination sn ^ 2 * Hii + c ^ 2 * Hjj + 2 * c * sn * Hij + hcs
+        · have hab : a ≠ b := fun h => hbj h.symm
+          have hib : i ≠ b := fun h => hbi h.symm
+          simp only [if_true, if_neg hbi, if_neg hbj, if_neg hab, if_neg hib, if_neg hji] at Hib Hjb ⊢
+          linear_combination sn * Hib + c * Hjb
+    · have hia : i ≠ a := fun h => hai h.symm
+      have hja : j ≠ a := fun h => haj h.symm
+      by_cases hbi : b = i
+      · subst hbi
+        simp only [if_true, if_neg hai, if_neg haj, if_neg hia, if_neg hja] at Hia Hja ⊢
+        linear_combination c * Hia - sn * Hja
+      · by_cases hbj : b = j
+        · subst hbj
+          simp only [if_true, if_neg hai, if_neg haj, if_neg hia, if_neg hja, if_neg hji] at Hia Hja ⊢
+          linear_combination sn * Hia + c * Hja
+        · simp only [if_neg hai, if_neg haj, if_neg hbi, if_neg hbj]
+          exact Hab
+
+theorem cs_unit (t : ℝ) :
+    ((GNum.dec 10 1 : ℝ) / GNum.sqrt (t * t + (GNum.ofNat 1 : ℝ))) ^ 2 +
+      (t * ((GNum.dec 10 1 : ℝ) / GNum.sqrt (t * t + (GNum.ofNat 1 : ℝ)))) ^ 2 = 1 := by
+  simp only [dec_eq, ofNat_eq, sqrt_eq]
+  have hpos : 0 < t * t + ((1 : ℕ) : ℝ) := by push_cast; nlinarith [mul_self_nonneg t]
+  have hs : Real.sqrt (t * t + ((1 : ℕ) : ℝ)) ^ 2 = t * t + ((1 : ℕ) : ℝ) := Real.sq_sqrt hpos.le
+  have hne : Real.sqrt (t * t + ((1 : ℕ) : ℝ)) ≠ 0 := (Real.sqrt_pos.2 hpos).ne'
+  generalize Real.sqrt (t * t + ((1 : ℕ) : ℝ)) = r at hs hne
+  push_cast at hs ⊢
+  field_simp
+  nlinarith
+
+theorem jrot_ortho (s : JState ℝ) (i j : Nat) (hij : i ≠ j) (hi : i < 4) (hj : j < 4)
+    (hs : OrthoV s.v) : OrthoV (jrot s i j).v := by
+  unfold jrot
+  dsimp only
+  split
+  · show OrthoV (JState.v (List.foldl _ _ _))
+    rw [vfold_v, foldl_v_eq, foldl_v_eq, foldl_v_eq]
+    · exact OrthoV_rot _ _ (cs_unit _) i j hij hi hj _ hs
+    all_goals (intro _ _; rfl)
+  · exact hs
+
+theorem pairs_ok : ∀ ij ∈ pairs, ij.1 ≠ ij.2 ∧ ij.1 < 4 ∧ ij.2 < 4 := by decide
+
+theorem jsweeps_ortho (n : Nat) (s : JState ℝ) (hs : OrthoV s.v) : OrthoV (jsweeps n s).v := by
+  induction n generalizing s with
+  | zero => exact hs
+  | succ n ih =>
+    unfold jsweeps
+    split
+    · exact hs
+    · apply ih
+      exact foldl_inv (fun s => OrthoV s.v) _ pairs
+        (fun s ij hij h => jrot_ortho s ij.1 ij.2 (pairs_ok ij hij).1 (pairs_ok ij hij).2.1 (pairs_ok ij hij).2.2 h) s hs
+
+theorem jinit_ortho (c : Sym4 ℝ) : OrthoV (jinit c).v := by
+  intro a b ha hb
+  have h1 : (GNum.dec 10 1 : ℝ) = 1 := by simp
+  have h0 : (GNum.dec 0 0 : ℝ) = 0 := by simp
+  simp only [jinit, h1, h0]
+  have h4 : a = 0 ∨ a = 1 ∨ a = 2 ∨ a = 3 := by omega
+  have h4' : b = 0 ∨ b = 1 ∨ b = 2 ∨ b = 3 := by omega
+  rcases h4 with rfl | rfl | rfl | rfl <;> rcases h4' with rfl | rfl | rfl | rfl <;> simp
+
+/-- swap of columns `j` and `k` in one row -/
+def Sswap (j k : Nat) (v : Nat → Nat → ℝ) (p : Nat) : Nat → Nat → ℝ :=
+  fun p' q => if p' = p ∧ q = j then v p k else if p' = p ∧ q = k then v p j else v p' q
+
+theorem sfold_v (j k : Nat) (l : List Nat) (s : JState ℝ) :
+    (l.foldl (fun s i => setV (setV s i k (s.v i j)) i j (s.v i k)) s).v = l.foldl (Sswap j k) s.v := by
+  induction l generalizing s with
+  | nil => rfl
+  | cons a l ih => rw [List.foldl_cons, ih]; rfl
+
+theorem Sswap_rows (j k : Nat) (hjk : j ≠ k) (v : Nat → Nat → ℝ) (p q : Nat) (hp : p < 4) :
+    (List.range 4).foldl (Sswap j k) v p q = v p (if q = j then k else if q = k then j else q) := by
+  have hkj : k ≠ j := Ne.symm hjk
+  have hr : List.range 4 = [0, 1, 2, 3] := by decide
+  rw [hr]
+  simp only [List.foldl_cons, List.foldl_nil]
+  have h4 : p = 0 ∨ p = 1 ∨ p = 2 ∨ p = 3 := by omega
+  rcases h4 with rfl | rfl | rfl | rfl <;> simp [Sswap, hjk, hkj] <;> split_ifs <;> rfl
+
+theorem OrthoV_swap (j k : Nat) (hjk : j ≠ k) (hj : j < 4) (hk : k < 4)
+    (v : Nat → Nat → ℝ) (hv : OrthoV v) : OrthoV ((List.range 4).foldl (Sswap j k) v) := by
+  intro a b ha hb
+  rw [Sswap_rows j k hjk v 0 a (by norm_num), Sswap_rows j k hjk v 1 a (by norm_num),
+    Sswap_rows j k hjk v 2 a (by norm_num), Sswap_rows j k hjk v 3 a (by norm_num),
+    Sswap_rows j k hjk v 0 b (by norm_num), Sswap_rows j k hjk v 1 b (by norm_num),
+    Sswap_rows j k hjk v 2 b (by norm_num), Sswap_rows j k hjk v 3 b (by norm_num)]
+  have ha' : (if a = j then k else if a = k then j else a) < 4 := by split_ifs <;> assumption
+  have hb' : (if b = j then k else if b = k then j else b) < 4 := by split_ifs <;> assumption
+  rw [hv _ _ ha' hb']
+  have : ((if a = j then k else if a = k then j else a) = (if b = j then k else if b = k then j else b)) ↔ a = b := by
+    split_ifs <;> omega
+  simp only [this]
+
+theorem sel_mem (d : Nat → ℝ) (l : List Nat) (init : Nat × ℝ) :
+    (l.foldl (fun (kd : Nat × ℝ) i => if GNum.lt (d i) kd.2 then (i, d i) else kd) init).1 = init.1 ∨
+    (l.foldl (fun (kd : Nat × ℝ) i => if GNum.lt (d i) kd.2 then (i, d i) else kd) init).1 ∈ l := by
+  induction l generalizing init with
+  | nil => left; rfl
+  | cons a l ih =>
+    rw [List.foldl_cons]
+    rcases ih (if GNum.lt (d a) init.2 then (a, d a) else init) with h | h
+    · rw [h]; split_ifs <;> simp
+    · right; simp [h]
+
+theorem jsort_ortho (s : JState ℝ) (hs : OrthoV s.v) : OrthoV (jsort s).v := by
+  unfold jsort
+  apply foldl_inv (fun s => OrthoV s.v) _ _ _ s hs
+  intro s j hj hs
+  simp only [List.mem_range] at hj
+  have hsel := sel_mem s.d (List.drop (j + 1) (List.range 4)) (j, s.d j)
+  generalize List.foldl (fun (kd : Nat × ℝ) i => if GNum.lt (s.d i) kd.2 = true then (i, s.d i) else kd) (j, s.d j)
+    (List.drop (j + 1) (List.range 4)) = kd at hsel ⊢
+  obtain ⟨k, dtemp⟩ := kd
+  have hk : k < 4 := by
+    rcases hsel with h | h
+    · simp only at h; omega
+    · have := List.mem_of_mem_drop h
+      simpa using this
+  dsimp only
+  split
+  · rename_i hkj
+    rw [sfold_v]
+    exact OrthoV_swap j k (by omega) (by omega) hk _ hs
+  · exact hs
+
+theorem jacobi_unit_quaternion_core (c : Sym4 ℝ) (nrot : Nat) :
+    let s := jacobi c nrot
+    (s.v 0 3) ^ 2 + (s.v 1 3) ^ 2 + (s.v 2 3) ^ 2 + (s.v 3 3) ^ 2 = 1 := by
+  intro s
+  have h : OrthoV s.v := jsort_ortho _ (jsweeps_ortho _ _ (jinit_ortho c))
+  have := h 3 3 (by norm_num) (by norm_num)
+  simp only [if_true] at this
+  linear_combination this
+
+theorem rigid_of_iso (m : M3 ℝ) (hm : ∀ p p', V3.dot (rotPoint m p) (rotPoint m p') = V3.dot p p')
+    (a b dc rc : V3 ℝ) :
+    V3.dot (V3.sub (V3.add (rotPoint m (V3.sub a dc)) rc) (V3.add (rotPoint m (V3.sub b dc)) rc))
+           (V3.sub (V3.add (rotPoint m (V3.sub a dc)) rc) (V3.add (rotPoint m (V3.sub b dc)) rc)) =
+    V3.dot (V3.sub a b) (V3.sub a b) := by
+  have h1 : V3.sub (V3.add (rotPoint m (V3.sub a dc)) rc) (V3.add (rotPoint m (V3.sub b dc)) rc) =
+      rotPoint m (V3.sub a b) := by
+    apply V3.ext' <;> simp only [rotPoint, V3.sub, V3.add] <;> ring
+  rw [h1, hm]
+
+theorem findCoordinates_rigid_core (refs defs : List (V3 ℝ)) (a b : V3 ℝ) :
+    V3.dot (V3.sub (findCoordinates refs defs a) (findCoordinates refs defs b))
+           (V3.sub (findCoordinates refs defs a) (findCoordinates refs defs b)) =
+    V3.dot (V3.sub a b) (V3.sub a b) := by
+  have hq := jacobi_unit_quaternion_core (cmat (center defs).2 (center refs).2) 30
+  exact rigid_of_iso _ (q2mat_isometry_core _ _ _ _ hq) a b (center defs).1 (center refs).1
 
 end P2P.Proofs.Geom
